@@ -136,10 +136,16 @@ int main(int argc, char **argv) {
       fams.push_back(F); }
     { static const int SIZES[] = {-4, -3, -2, -1, 0, 1, 2, 3, 1022, 1023, 1024, 1025, 1026, 2048, 69999, 70000};
       static const int TY[][2] = {{OPNMIDI_SampleType_S16, 2}, {OPNMIDI_SampleType_F32, 4}, {OPNMIDI_SampleType_U8, 1}, {OPNMIDI_SampleType_U16, 4}, {OPNMIDI_SampleType_S24, 2}, {OPNMIDI_SampleType_S32, 4}};
-      en::Family F; F.name = "request_sizes"; F.count = 16 * 6 * 2 * 2 * 3 * 2; F.chunk = 2; F.budget_s = 300; F.describe = "request sizes {-4..3, 1022..1026, 2048, 69999, 70000} x {S16/2, F32/4, U8/1, U16/4, S24/2 (unsupported), S32/4} x cores {GENS, MAME} x chips {1,4} x 3 layouts x {generate, play to the end of the song}";
+      en::Family F; F.name = "request_sizes"; F.count = 16 * 6 * 2 * 2 * 3 * 2; F.chunk = 2; F.budget_s = 120; F.describe = "request sizes {-4..3, 1022..1026, 2048, 69999, 70000} x {S16/2, F32/4, U8/1, U16/4, S24/2 (unsupported), S32/4} x cores {GENS, MAME} x chips {1,4} x 3 layouts x {generate, play to the end of the song}";
       F.run = [](uint64_t i, en::CaseOut &o) { Cfg c; uint64_t r = i; c.request = SIZES[r % 16]; r /= 16; int t = (int)(r % 6); c.type = TY[t][0]; c.container = (unsigned)TY[t][1]; r /= 6; c.core = (r % 2) ? OPNMIDI_EMU_MAME : OPNMIDI_EMU_GENS; r /= 2; c.chips = (r % 2) ? 4 : 1; r /= 2; c.layout = (int)(r % 3); r /= 3; c.play = r % 2; c.loud = true; c.rate = 22050;
         if(i % 97 == 0) o.sample = cfg_str(c, NULL); run_case(c, o); };
       fams.push_back(F); }
-    (void)thorough;
+    { // every request size in a range: the 512-frame period splitting and the odd-sample handling depend on the exact value
+      static std::vector<int> SZ; if(thorough) { for(int v = 0; v <= 2200; v++) SZ.push_back(v); } else { for(int v = 0; v <= 40; v++) SZ.push_back(v); for(int k = 1; k <= 4; k++) for(int d = -4; d <= 4; d++) SZ.push_back(1024 * k + d); }
+      static const int TY[][2] = {{OPNMIDI_SampleType_S16, 2}, {OPNMIDI_SampleType_F32, 4}, {OPNMIDI_SampleType_U8, 2}};
+      en::Family F; F.name = "request_sizes_dense"; F.count = (uint64_t)SZ.size() * 3 * 3 * 2; F.chunk = 8; F.budget_s = 120; F.describe = std::string("request size ") + (thorough ? "every value 0..2200" : "every value 0..40 and 1024k-4..1024k+4 for k=1..4") + " x {S16/2, F32/4, U8 in 2-byte container} x 3 layouts x {generate, play}; GENS, 1 chip, loud";
+      F.run = [](uint64_t i, en::CaseOut &o) { Cfg c; uint64_t r = i; c.request = SZ[r % SZ.size()]; r /= SZ.size(); int t = (int)(r % 3); c.type = TY[t][0]; c.container = (unsigned)TY[t][1]; r /= 3; c.layout = (int)(r % 3); r /= 3; c.play = r % 2; c.core = OPNMIDI_EMU_GENS; c.chips = 1; c.loud = true; c.rate = 22050;
+        if(i % 499 == 0) o.sample = cfg_str(c, NULL); run_case(c, o); };
+      fams.push_back(F); }
     return en::run_main(argc, argv, "C13", fams, TAGS, "non-trivial: the call ran with two poison patterns, the guards/strides were accounted for and every reported sample was compared with the documented conversion of the F64 rendering");
 }
